@@ -165,7 +165,10 @@ impl Scenario for BlockLockstep {
         case.set("hostmm", rng.chance(1, 64) as i64);
         let banks = rom_banks(rom_code);
         let high = rng.chance(1, 2);
-        let bank = if cart_type == 0 { 1 } else { 1 + rng.below(banks as u64 - 1) as usize };
+        // 1 in 16 switchable-window blocks run with bank 0 mapped there: the register is written with the cartridge's bank
+        // count, a non-zero value that wraps to bank 0 (the block's bytes then live in the first 16 KiB of the image)
+        let wrap_to_zero = high && cart_type != 0 && rng.chance(1, 16);
+        let bank = if cart_type == 0 { 1 } else if wrap_to_zero { 0 } else { 1 + rng.below(banks as u64 - 1) as usize };
         // block body
         let avoid_rom_regs = high && !rng.chance(1, 50);
         let max_body = if thorough { rng.pick(&[0u64, 1, 3, 8, 24, 60, 200]) } else { rng.pick(&[0u64, 1, 2, 4, 8, 24]) };
@@ -225,15 +228,16 @@ impl Scenario for BlockLockstep {
                 2 => lo + rng.below(0x200) as usize,
                 _ => lo + rng.below((hi - lo - len) as u64 + 1) as usize,
             };
-            // keep clear of the cartridge header
-            if a + len <= 0x100 || a >= FILLER_BASE + FILLER_LEN {
+            // keep clear of the cartridge header (also when the block's bytes live in bank 0 although it runs at 0x4000+)
+            let off = if wrap_to_zero { a & 0x3fff } else { a };
+            if off + len <= 0x100 || off >= FILLER_BASE + FILLER_LEN {
                 break a;
             }
         };
         case.blobs.insert(patch_key(rom_offset(addr, bank)), code);
         // set-up: select the bank the block lives in (or a drawn one for bank-0 blocks)
         if cart_type != 0 {
-            let b = if high { bank } else { rng.below(banks as u64) as usize };
+            let b = if wrap_to_zero { banks } else if high { bank } else { rng.below(banks as u64) as usize };
             case.push("w", &[0x2000 + rng.below(0x2000) as i64, b as i64]);
             if cart_type <= 3 && rng.chance(1, 4) {
                 case.push("w", &[0x6000, 1]);
